@@ -229,6 +229,8 @@ def main(tier):
     for v in run.violations:
         if v.pop("_pending", False):
             v["no_failing_input_found"] = v["command_line"] not in oracle_lines
+    # replays are written for the first 20 violations: failing inputs first
+    run.violations.sort(key=lambda v: (0 if v["kind"].startswith("oracle:") else 1 if not v.get("no_failing_input_found") else 2))
     tb = ["Coq 8.16.1 kernel + vm_compute (Examples, refuted witnesses, one finite sweep of the 400-year cycle if stated)",
           "axioms under Print Assumptions: " + (", ".join(sorted(axioms)) or "none (Closed under the global context)"),
           "extraction: ExtrOcamlBasic only; OCaml 4.13.1; zarith for decimal I/O in the driver glue",
@@ -399,11 +401,10 @@ def time_cases(run, rng, tier, cases, cdrv):
             lmap[txt] = (z, int(o))
     for txt, f in texts:
         b = txt.encode("latin1")
-        z, lg = lmap.get(txt, ("UTC", 0))
-        if f is None and rng.chance(1, 2):
-            z = rng.choice(zones)       # the zone must not matter when the text carries Z or an offset ...
-            if re.match(r"^\d{10}(\d\d(\d\d([.,]\d*)?)?)?$", txt):
-                z = "UTC"               # ... but does for a local-time text
+        is_local = f is not None and txt in lmap
+        z, lg = lmap[txt] if is_local else ("UTC", 0)
+        if not is_local and rng.chance(1, 2) and not re.match(r"^\d{10}(\d\d(\d\d([.,]\d*)?)?)?$", txt):
+            z = rng.choice(zones)       # the zone must not matter when the text carries Z or an offset
         ag = rng.below(2)
         cases.append(("time_of_gt %s %d %s %d" % (hexs(b), ag, z, lg), "time_of_gt", txt))
         if rng.chance(1, 3):
@@ -412,7 +413,9 @@ def time_cases(run, rng, tier, cases, cdrv):
         if len(txt) >= 2 and rng.chance(1, 2):
             u = txt[2:].encode("latin1")
             # a local-time UTCTime text is read in another century: only UTC keeps lgmtoff = 0 meaningful
-            cases.append(("time_of_ut %s %d %s %d" % (hexs(u), ag, "UTC" if z != "UTC" and txt in lmap else z, 0 if txt in lmap else lg), "time_of_ut", txt))
+            # a text without Z/offset is local time: its offset is known to the model only under UTC
+            zu = "UTC" if (is_local or re.match(r"^\d+([.,]\d*)?$", txt[2:])) else z
+            cases.append(("time_of_ut %s %d %s %d" % (hexs(u), ag, zu, 0), "time_of_ut", txt))
 
 
 def frac_expected(fv, fd):
